@@ -125,7 +125,16 @@ def gen_c18():
 
     unchecked = bool(re.search(r'\b(tokens|split)\s*\[', pm + pr + src))
     nl = re.findall(r'lines_\s*(\.at\s*\(|\[)\s*([^)\]]*)', pm + pr)
-    next_checked = all(not (a == '[' and norm(b) != 'i_') for a, b in nl) and any(a.startswith('.at') and norm(b) == '++i_' for a, b in nl)
+    # the model consumes one line per read: exactly the two read sites (next-line row, matrix rows) must be `lines_.at(++i_)`,
+    # and the only other use of lines_ in these functions is `lines_[i_]` under the loop guard
+    reads = [(a, norm(b)) for a, b in nl if not (a == '[' and norm(b) == 'i_')]
+    if len(reads) != 2:
+        raise E.ExtractError('processMatrix: expected two next-line read sites, found ' + repr(reads))
+    next_checked = all(a.startswith('.at') and b == '++i_' for a, b in reads)
+    if not next_checked and not all(a.startswith('.at') for a, b in reads):
+        pass  # unchecked read: reported through nextLineChecked = false
+    elif not next_checked:
+        raise E.ExtractError('processMatrix: next-line reads no longer advance the shared cursor as `lines_.at(++i_)`: ' + repr(reads))
 
     # size guard (the repaired form): checkExtent(S, A, S) [and (S, A, O)] before the first resize
     def guarded(body, triples, what):
